@@ -1,5 +1,7 @@
+import Toodee.Impl.Recv
 import Toodee.Spec.OpsSpec
 import Toodee.Proofs.Index
+import Toodee.Properties.C20
 /-
   C03 — A view is exactly the requested window of its parent.
 
@@ -136,5 +138,222 @@ example : ∃ v', VW.view .debug ⟨⟨1, 5⟩, 2, 2, 3⟩ (1, 0) (2, 2) = .ok v
 example : VW.view .release ⟨⟨1, 5⟩, 2, 2, 3⟩ (0, 0) (3, 1) = .error .panic :=
   (C03_view_invalid .release _ 8 ⟨by decide, by decide, by decide, by decide, by decide, by decide⟩ (0, 0) (3, 1)
     (by decide) (by decide)).1
+
+/-! ### nesting to any depth: chains of borrowing steps (`Recv.borrow`, Impl/Recv.lean) -/
+
+/-- a receiver is sound over a root buffer of `n` cells -/
+def Recv.Sound (n : Nat) : Recv α → Prop
+  | .root t | .ext t => t.Inv ∧ t.data.length = n
+  | .vmut v | .vsh v => v.Inv n
+
+/-- the root-buffer positions that are cells of the receiver -/
+def Recv.IsCell : Recv α → Nat → Prop
+  | .root t, p | .ext t, p => p < t.data.length
+  | .vmut v, p | .vsh v, p => (v.coord? p).isSome
+
+/-- the arguments of a borrowing step are `usize` values -/
+def Borrow.small : Borrow → Prop
+  | .asExt => True
+  | .viewMut s e | .view s e => s.1 < WORD ∧ s.2 < WORD ∧ e.1 < WORD ∧ e.2 < WORD
+  | .sliceMut c r n | .slice c r n => c < WORD ∧ r < WORD ∧ n < WORD
+
+/-- a cell of a view with the invariant is a position of the root buffer -/
+private theorem vw_cell_lt {v : VW} {n p : Nat} (h : v.Inv n) (hp : (v.coord? p).isSome) : p < n := by
+  obtain ⟨⟨c, r⟩, hcr⟩ := Option.isSome_iff_exists.1 hp
+  obtain ⟨rfl, hc, hr⟩ := VW.coord?_eq_some hcr
+  exact VW.pos_lt h hc hr
+
+private theorem viewSize_lt {s e : Nat × Nat} {C R c r : Nat} (h : (C, R) = viewSize s e) (hc : c < C) (hr : r < R) :
+    s.1 + c < e.1 ∧ s.2 + r < e.2 := by
+  unfold viewSize at h
+  split at h
+  · simp only [Prod.mk.injEq] at h; omega
+  · simp only [Prod.mk.injEq] at h; omega
+
+/-- one slicing step on a view: panic, or a view with the invariant whose cells are cells of the parent -/
+private theorem view_step (m : Mode) (v : VW) (n : Nat) (h : v.Inv n) (s e : Nat × Nat)
+    (hw : s.1 < WORD ∧ s.2 < WORD ∧ e.1 < WORD ∧ e.2 < WORD) :
+    (v.view m s e = .error .panic ∧ v.viewChecked m s e = .error .panic) ∨
+    ∃ v', v.view m s e = .ok v' ∧ v.viewChecked m s e = .ok v' ∧ v'.Inv n ∧
+      ∀ p, (v'.coord? p).isSome → (v.coord? p).isSome := by
+  by_cases hok : (s.1 ≤ e.1 ∧ s.2 ≤ e.2) ∧ (e.1 ≤ v.numCols ∧ e.2 ≤ v.numRows)
+  · obtain ⟨v', h1, h2, h3, h4, h5⟩ := C03_view_valid m v n h s e hok.1 hok.2
+    refine .inr ⟨v', h1, h2, h3, ?_⟩
+    intro p hp
+    obtain ⟨⟨c, r⟩, hcr⟩ := Option.isSome_iff_exists.1 hp
+    obtain ⟨rfl, hc, hr⟩ := VW.coord?_eq_some hcr
+    have hlt := viewSize_lt h4 hc hr
+    rw [h5 c r hc hr, VW.coord?_pos h (c := s.1 + c) (r := s.2 + r) (by omega) (by omega)]
+    rfl
+  · exact .inl (C03_view_invalid m v n h s e hw hok)
+
+/-- the slice-based constructors on the array itself -/
+private theorem slice_step (t : TD α) (h : t.Inv) (c r k : Nat) :
+    ((t.win.indexTo k >>= fun sl => VW.newMut c r sl) = .error .panic ∧
+      (t.win.indexTo k >>= fun sl => VW.newShared c r sl) = .error .panic) ∨
+    ∃ v', (t.win.indexTo k >>= fun sl => VW.newMut c r sl) = .ok v' ∧
+      (t.win.indexTo k >>= fun sl => VW.newShared c r sl) = .ok v' ∧ v'.Inv t.data.length := by
+  by_cases hk : k ≤ t.data.length
+  · have hi : t.win.indexTo k = .ok ⟨0, k⟩ := by simp [Win.indexTo, TD.win, hk]
+    have hnew := C20_view_new c r ⟨0, k⟩ t.data.length (by simpa using hk) h.word
+    by_cases hok : shapeOk c r ∧ c * r ≤ (⟨0, k⟩ : Win).len
+    · obtain ⟨v', h1, h2, h3, _⟩ := hnew.1 hok
+      exact .inr ⟨v', by rw [hi, ok_bind]; exact h2, by rw [hi, ok_bind]; exact h1, h3⟩
+    · obtain ⟨h1, h2⟩ := hnew.2 hok
+      exact .inl ⟨by rw [hi, ok_bind]; exact h2, by rw [hi, ok_bind]; exact h1⟩
+  · have hi : t.win.indexTo k = .error .panic := by simp [Win.indexTo, TD.win, hk]
+    exact .inl ⟨by rw [hi]; rfl, by rw [hi]; rfl⟩
+
+/-- wrapping the result of a constructor into a receiver -/
+private theorem borrow_fin {res : Res VW} {k : VW → Recv α} {P : Recv α → Prop}
+    (hres : res = .error .panic ∨ ∃ v', res = .ok v' ∧ P (k v')) :
+    (res >>= fun v => (pure (some (k v)) : Res (Option (Recv α)))) ≠ .error .ub ∧
+    (res >>= fun v => (pure (some (k v)) : Res (Option (Recv α)))) ≠ .error .fuel ∧
+    ∀ rc', (res >>= fun v => (pure (some (k v)) : Res (Option (Recv α)))) = .ok (some rc') → P rc' := by
+  rcases hres with hres | ⟨v', hres, hp⟩
+  · subst hres
+    refine ⟨by simp, by simp, ?_⟩
+    intro rc' h; simp at h
+  · subst hres
+    refine ⟨by simp, by simp, ?_⟩
+    intro rc' h
+    simp only [ok_bind, pure_eq, Except.ok.injEq, Option.some.injEq] at h
+    subst h; exact hp
+
+private theorem borrow_none {P : Recv α → Prop} :
+    (pure none : Res (Option (Recv α))) ≠ .error .ub ∧ (pure none : Res (Option (Recv α))) ≠ .error .fuel ∧
+    ∀ rc', (pure none : Res (Option (Recv α))) = .ok (some rc') → P rc' := by
+  refine ⟨by simp, by simp, ?_⟩
+  intro rc' h; simp at h
+
+/-- **one borrowing step from any sound receiver** (owned array, third-party wrapper, mutable or shared view at any nesting depth;
+    every constructor incl. the slice-based ones; any arguments): never undefined behaviour; the new receiver is sound over the
+    same root buffer; and its cells are cells of the receiver it was borrowed from -/
+theorem C03_borrow (m : Mode) (n : Nat) (rc : Recv α) (h : rc.Sound n) (b : Borrow) (hb : b.small) :
+    rc.borrow m b ≠ .error .ub ∧ rc.borrow m b ≠ .error .fuel ∧
+    ∀ rc', rc.borrow m b = .ok (some rc') → rc'.Sound n ∧ ∀ p, rc'.IsCell p → rc.IsCell p := by
+  -- owned array / third-party wrapper: `from_toodee`
+  have hTD : ∀ (t : TD α) (k : VW → Recv α) (s e : Nat × Nat), t.Inv → t.data.length = n →
+      (s.1 < WORD ∧ s.2 < WORD ∧ e.1 < WORD ∧ e.2 < WORD) →
+      (∀ v p, (k v).IsCell p = (v.coord? p).isSome) → (∀ v, (k v).Sound n = v.Inv n) →
+      VW.fromTooDee m s e t = .error .panic ∨ ∃ v', VW.fromTooDee m s e t = .ok v' ∧
+        ((k v').Sound n ∧ ∀ p, (k v').IsCell p → p < t.data.length) := by
+    intro t k s e ht hl hw hk1 hk2
+    rw [VW.fromTooDee_eq_view]
+    rcases view_step m t.asView t.data.length (TD.asView_inv t ht).1 s e hw with hp | ⟨v', h1, _, h3, _⟩
+    · exact .inl hp.1
+    · refine .inr ⟨v', h1, by rw [hk2, ← hl]; exact h3, ?_⟩
+      intro p hp; rw [hk1] at hp; exact vw_cell_lt h3 hp
+  -- slice-based constructors on the array
+  have hSL : ∀ (t : TD α) (k : VW → Recv α) (v' : VW), t.data.length = n → v'.Inv t.data.length →
+      (∀ v p, (k v).IsCell p = (v.coord? p).isSome) → (∀ v, (k v).Sound n = v.Inv n) →
+      ((k v').Sound n ∧ ∀ p, (k v').IsCell p → p < t.data.length) := by
+    intro t k v' hl h3 hk1 hk2
+    refine ⟨by rw [hk2, ← hl]; exact h3, ?_⟩
+    intro p hp; rw [hk1] at hp; exact vw_cell_lt h3 hp
+  cases rc with
+  | root t =>
+    obtain ⟨ht, hl⟩ := h
+    cases b with
+    | asExt =>
+      refine ⟨by simp [Recv.borrow], by simp [Recv.borrow], ?_⟩
+      intro rc' hrc
+      simp only [Recv.borrow, pure_eq, Except.ok.injEq, Option.some.injEq] at hrc
+      subst hrc
+      exact ⟨⟨ht, hl⟩, fun p hp => hp⟩
+    | viewMut s e => exact borrow_fin (k := Recv.vmut) (hTD t Recv.vmut s e ht hl hb (fun _ _ => rfl) (fun _ => rfl))
+    | view s e => exact borrow_fin (k := Recv.vsh) (hTD t Recv.vsh s e ht hl hb (fun _ _ => rfl) (fun _ => rfl))
+    | sliceMut c r k =>
+      have hs := slice_step t ht c r k
+      have : (t.win.indexTo k >>= fun sl => VW.newMut c r sl) = .error .panic ∨
+          ∃ v', (t.win.indexTo k >>= fun sl => VW.newMut c r sl) = .ok v' ∧
+            ((Recv.vmut v' : Recv α).Sound n ∧ ∀ p, (Recv.vmut v' : Recv α).IsCell p → p < t.data.length) := by
+        rcases hs with hp | ⟨v', h1, _, h3⟩
+        · exact .inl hp.1
+        · exact .inr ⟨v', h1, hSL t Recv.vmut v' hl h3 (fun _ _ => rfl) (fun _ => rfl)⟩
+      have hfin := borrow_fin (k := Recv.vmut)
+        (P := fun rc' : Recv α => rc'.Sound n ∧ ∀ p, rc'.IsCell p → p < t.data.length) this
+      simp only [bind_assoc] at hfin
+      exact hfin
+    | slice c r k =>
+      have hs := slice_step t ht c r k
+      have : (t.win.indexTo k >>= fun sl => VW.newShared c r sl) = .error .panic ∨
+          ∃ v', (t.win.indexTo k >>= fun sl => VW.newShared c r sl) = .ok v' ∧
+            ((Recv.vsh v' : Recv α).Sound n ∧ ∀ p, (Recv.vsh v' : Recv α).IsCell p → p < t.data.length) := by
+        rcases hs with hp | ⟨v', _, h2, h3⟩
+        · exact .inl hp.2
+        · exact .inr ⟨v', h2, hSL t Recv.vsh v' hl h3 (fun _ _ => rfl) (fun _ => rfl)⟩
+      have hfin := borrow_fin (k := Recv.vsh)
+        (P := fun rc' : Recv α => rc'.Sound n ∧ ∀ p, rc'.IsCell p → p < t.data.length) this
+      simp only [bind_assoc] at hfin
+      exact hfin
+  | ext t =>
+    obtain ⟨ht, hl⟩ := h
+    cases b with
+    | asExt => exact borrow_none
+    | viewMut s e => exact borrow_fin (k := Recv.vmut) (hTD t Recv.vmut s e ht hl hb (fun _ _ => rfl) (fun _ => rfl))
+    | view s e => exact borrow_fin (k := Recv.vsh) (hTD t Recv.vsh s e ht hl hb (fun _ _ => rfl) (fun _ => rfl))
+    | sliceMut c r k => exact borrow_none
+    | slice c r k => exact borrow_none
+  | vmut v =>
+    cases b with
+    | asExt => exact borrow_none
+    | viewMut s e =>
+      refine borrow_fin (k := Recv.vmut) ?_
+      rcases view_step m v n h s e hb with hp | ⟨v', h1, _, h3, h4⟩
+      · exact .inl hp.1
+      · exact .inr ⟨v', h1, h3, h4⟩
+    | view s e =>
+      refine borrow_fin (k := Recv.vsh) ?_
+      rcases view_step m v n h s e hb with hp | ⟨v', _, h2, h3, h4⟩
+      · exact .inl hp.2
+      · exact .inr ⟨v', h2, h3, h4⟩
+    | sliceMut c r k => exact borrow_none
+    | slice c r k => exact borrow_none
+  | vsh v =>
+    cases b with
+    | asExt => exact borrow_none
+    | viewMut s e => exact borrow_none
+    | view s e =>
+      refine borrow_fin (k := Recv.vsh) ?_
+      rcases view_step m v n h s e hb with hp | ⟨v', h1, _, h3, h4⟩
+      · exact .inl hp.1
+      · exact .inr ⟨v', h1, h3, h4⟩
+    | sliceMut c r k => exact borrow_none
+    | slice c r k => exact borrow_none
+
+/-- **any chain of borrowing steps** (nested views to any depth) -/
+theorem C03_borrow_chain (m : Mode) (n : Nat) (rc : Recv α) (h : rc.Sound n) (bs : List Borrow) (hb : ∀ b ∈ bs, b.small) :
+    rc.borrowAll m bs ≠ .error .ub ∧ rc.borrowAll m bs ≠ .error .fuel ∧
+    ∀ rc', rc.borrowAll m bs = .ok (some rc') → rc'.Sound n ∧ ∀ p, rc'.IsCell p → rc.IsCell p := by
+  induction bs generalizing rc with
+  | nil =>
+    refine ⟨by simp [Recv.borrowAll], by simp [Recv.borrowAll], ?_⟩
+    intro rc' hrc
+    simp only [Recv.borrowAll, pure_eq, Except.ok.injEq, Option.some.injEq] at hrc
+    subst hrc
+    exact ⟨h, fun p hp => hp⟩
+  | cons b bs ih =>
+    obtain ⟨h1, h2, h3⟩ := C03_borrow m n rc h b (hb b (List.mem_cons_self ..))
+    unfold Recv.borrowAll
+    cases hbr : rc.borrow m b with
+    | error e =>
+      refine ⟨?_, ?_, ?_⟩
+      · intro hc; simp only [err_bind, Except.error.injEq] at hc; subst hc; exact h1 hbr
+      · intro hc; simp only [err_bind, Except.error.injEq] at hc; subst hc; exact h2 hbr
+      · intro rc' hc; simp at hc
+    | ok o =>
+      cases o with
+      | none =>
+        refine ⟨by simp, by simp, ?_⟩
+        intro rc' hc; simp at hc
+      | some rc1 =>
+        obtain ⟨hs1, hc1⟩ := h3 rc1 hbr
+        obtain ⟨i1, i2, i3⟩ := ih rc1 hs1 (fun b' hb' => hb b' (List.mem_cons_of_mem _ hb'))
+        simp only [ok_bind]
+        refine ⟨i1, i2, ?_⟩
+        intro rc' hc
+        obtain ⟨hs', hc'⟩ := i3 rc' hc
+        exact ⟨hs', fun p hp => hc1 p (hc' p hp)⟩
 
 end Toodee
